@@ -135,6 +135,12 @@ var ruleNoPanics = &core.Rule{ID: "R01.2", Min: 5,
 						call, ok := x.X.(*ssa.Call)
 						s.Check(ok && core.MethodCalleeIs(&call.Call, "sync", "Pool", "Get"), key, c.Pos(x.Pos()), "on a pool value (type agreement: R04.3)", "a type assertion without the comma-ok form on a value that is not taken from a typed pool: it panics when the dynamic type differs")
 					case *ssa.Panic:
+						// a function that only the package initialisers reach cannot panic during a detection: its panic
+						// would stop the program at start-up, for every user and every test
+						if getConcInitOnlyAny(c, f) {
+							s.OK(core.FName(f)+": explicit panic", c.Pos(x.Pos()), "reachable only from package initialisers")
+							continue
+						}
 						s.Bad(core.FName(f)+": explicit panic", c.Pos(x.Pos()), "explicit panic in library code")
 					case *ssa.MapUpdate:
 						key := fmt.Sprintf("%s: map write at b%d", core.FName(f), b.Index)
@@ -759,4 +765,50 @@ func treeWorklist(wm *walkModel, h *ssa.BasicBlock, body map[*ssa.BasicBlock]boo
 		}
 	}
 	return "worklist over the tree: every iteration removes the last pending node and adds only children of that node; the tree is finite and acyclic (R03.1: single parent, chains end at the root; R14.1; R06.3), so the pending nodes get strictly deeper and the loop ends (inner loops are judged on their own)", true
+}
+
+// getConcInitOnlyAny: every static caller chain of f (in any module package) starts in a package initialiser, and f
+// is never used as a value.
+func getConcInitOnlyAny(c *core.Ctx, f *ssa.Function) bool {
+	callers := map[*ssa.Function][]*ssa.Function{}
+	valueUse := map[*ssa.Function]bool{}
+	for _, g := range c.AllModFuncs() {
+		for _, b := range g.Blocks {
+			for _, in := range b.Instrs {
+				if ci, ok := in.(ssa.CallInstruction); ok {
+					if h := ci.Common().StaticCallee(); h != nil {
+						callers[h] = append(callers[h], g)
+					}
+				}
+				for _, op := range in.Operands(nil) {
+					if h, ok := (*op).(*ssa.Function); ok {
+						if ci, isCall := in.(ssa.CallInstruction); !isCall || ci.Common().Value != *op {
+							valueUse[h] = true
+						}
+					}
+				}
+			}
+		}
+	}
+	seen := map[*ssa.Function]bool{}
+	var rec func(g *ssa.Function) bool
+	rec = func(g *ssa.Function) bool {
+		if g.Name() == "init" && g.Synthetic != "" {
+			return true
+		}
+		if seen[g] {
+			return true
+		}
+		seen[g] = true
+		if valueUse[g] || len(callers[g]) == 0 || (g.Object() != nil && g.Object().Exported()) {
+			return false
+		}
+		for _, h := range callers[g] {
+			if !rec(h) {
+				return false
+			}
+		}
+		return true
+	}
+	return rec(f)
 }
